@@ -145,6 +145,7 @@ def run(ctx):
 FI = 'sedfitter/fit_info.py'
 MO = 'sedfitter/models.py'
 MUST_FIRE = [
+    ('only finite chi2 ranked: argsort of the compressed array concatenated with full-axis positions', [(FI, 'order = np.argsort(self.chi2)', 'ranked = np.isfinite(self.chi2)\n        order = np.hstack([np.argsort(self.chi2[ranked]), np.flatnonzero(~ranked)])')]),
     ('sort omits sc', [(FI, "        self.sc = self.sc[order]\n        self.chi2 = self.chi2[order]", "        self.chi2 = self.chi2[order]")]),
     ('argsort(-chi2)', [(FI, "order = np.argsort(self.chi2)", "order = np.argsort(-self.chi2)")]),
     ('order reversed', [(FI, "order = np.argsort(self.chi2)", "order = np.argsort(self.chi2)[::-1]")]),
